@@ -92,7 +92,7 @@ def run(ctx):
     ctx.extra["exceptions_escaping_into_the_reactor"] = errs
     ctx.log("%d histories run (%d exhaustive-suffix), %d distinct traces, %d events" % (len(hs), nexh, len(traces), sum(len(t["ev"]) for t in traces)))
     ctx.note_traces(traces)
-    rej = ctx.validate("FtpSessionTrace", traces, shard_size=2500)
+    rej = ctx.validate("FtpSessionTrace", traces, shard_size=ctx.pick(800, 2500))
     for r in rej[:10]:
         t = traces[r.idx]
         e = t["ev"][r.reached] if r.reached < len(t["ev"]) else None
